@@ -6,7 +6,7 @@ from ..astutil import text, short, endswith, calls_in, walk_no_nested
 from ..callgraph import CallGraph
 from ..ordertaint import Analysis, REDUCERS, key_is_injective, key_has_element, key_known
 from ._h_F import (ifn, Res, res_of, iterations, aliases_of, strip_wrappers, call_arg, absent,
-                   sorted_view, loop_body_nodes, need, repo_callees)
+                   sorted_view, loop_body_nodes, need, repo_callees, locate, own_params)
 
 EXPLANATION = (
   "Order-taint analysis: iteration order of set-typed values (hash-seed / object-identity "
@@ -168,12 +168,65 @@ def _sorted_calls(fn):
   return [(n, c) for (n, c, nm) in fn.calls() if nm == "sorted" and c.args]
 
 
+UPDATE_LOOP_CALLERS = ("engine.Engine._bring_all_up_to_date",
+                       "engine.Engine._bring_mlookups_up_to_date", "engine.Engine._update_loop")
+
+
+def _builder_call(w, f, fr, n, e):
+  """(call, [repo functions it resolves to]) when expression e at node n is -- through locals --
+  the result of a call of a repo function; else None."""
+  a = fr.expand(e, n.id)
+  if isinstance(a, ast.Name):
+    vals = fr.values_at(n.id, a.id)
+    if vals and len({text(fr.expand(v, d)) for (v, d) in vals}) == 1:
+      a = fr.expand(vals[0][0], vals[0][1])
+  if isinstance(a, ast.Call):
+    tg = repo_callees(w, f, a)
+    if tg:
+      return a, tg
+  return None
+
+
 def r4_schedule(run, w):
   R4 = run.rule("C30-R4", "work items are ordered by a total order on nodes (lookups first)",
                 floor=1)
-  fn = ifn(w, "engine.Engine._make_sorted_work_items")
+  # The work-item builder is found by role: the function whose result is handed to _update_loop
+  # (and assigned to its work list inside the loop), whatever it is called and wherever it lives.
+  sites = []          # (caller Fn, Res, node, call, handed expression)
+  for q in UPDATE_LOOP_CALLERS:
+    f = w.fn(locate(w, q))
+    fr = res_of(w, f)
+    for (n, c, nm) in f.calls():
+      if endswith(nm, "_update_loop") and call_arg(c, 0, "work_items") is not None:
+        sites.append((f, fr, n, c, call_arg(c, 0, "work_items"), "call"))
+    if q.endswith("_update_loop"):
+      wp = own_params(f)[0]
+      for n in fr.cfg.nodes:
+        if n.kind == "stmt" and isinstance(n.stmt, ast.Assign) and \
+            any(text(t) == wp for t in n.stmt.targets):
+          sites.append((f, fr, n, None, n.stmt.value, "refill"))
+  need([x for x in sites if x[5] == "call"], "the calls of _update_loop", None)
+  need([x for x in sites if x[5] == "refill"], "the statement that refills the work list inside "
+       "the update loop", None)
+  builders = {}
+  resolved = []
+  for (f, fr, n, c, e, kind) in sites:
+    bc = _builder_call(w, f, fr, n, e)
+    resolved.append(bc)
+    if bc is not None:
+      for t in bc[1]:
+        builders[t.qualname] = t
+  need(builders, "the function that builds the sorted work items", None)
+  # the one used most is *the* builder; a site using something else is reported below
+  counts = {}
+  for bc in resolved:
+    if bc is not None and len(bc[1]) == 1:
+      counts[bc[1][0].qualname] = counts.get(bc[1][0].qualname, 0) + 1
+  need(counts, "the function that builds the sorted work items", None)
+  bq = sorted(counts, key=lambda k: (-counts[k], k))[0]
+  fn = ifn(w, bq)
   r = res_of(w, fn)
-  p = fn.fi.params()[1]
+  p = need(own_params(fn), "the builder's parameter", fn)[0]
   # every iteration that involves the nodes handed in goes over a sorted view of them whose key
   # contains the node itself
   ok, n_sorted, n_seen = True, 0, 0
@@ -191,12 +244,12 @@ def r4_schedule(run, w):
       continue
     n_seen += 1
     if isinstance(t, ast.Call) and dotted(t.func) != "sorted" and repo_callees(w, fn, t):
-      raise AnalysisError("_make_sorted_work_items: the nodes are ordered by %s, which is not "
-                          "followed" % short(t.func, 50))
+      raise AnalysisError("%s: the nodes are ordered by %s, which is not followed"
+                          % (fn.qualname, short(t.func, 50)))
     sv = sorted_view(r, fn, it, at[0].id)
     if sv is not None and not key_known(fn, sv[1]):
-      raise AnalysisError("_make_sorted_work_items: the sort key %s cannot be inspected"
-                          % short(sv[1], 60))
+      raise AnalysisError("%s: the sort key %s cannot be inspected" % (fn.qualname,
+                                                                        short(sv[1], 60)))
     good = sv is not None and isinstance(sv[0], ast.Name) and sv[0].id in names and \
         key_has_element(fn, sv[1])
     n_sorted += good
@@ -204,35 +257,20 @@ def r4_schedule(run, w):
   need(n_seen, "an iteration over the nodes handed in", fn)
   run.ob(R4, fn.qualname, "sorted(nodes, key=lambda n: (..., n))", "scheduling order does not "
          "depend on dict/set iteration order: the sort key contains the node itself", ok, fi=fn.fi)
-  for q in ("engine.Engine._bring_all_up_to_date", "engine.Engine._bring_mlookups_up_to_date",
-            "engine.Engine._update_loop"):
-    f = ifn(w, q)
-    fr = res_of(w, f)
-    for (n, c, nm) in f.calls():
-      if nm == "self._update_loop" and call_arg(c, 0, "work_items") is not None:
-        a = fr.expand(call_arg(c, 0, "work_items"), n.id)
-        if isinstance(a, ast.Name):
-          vals = fr.values_at(n.id, a.id)
-          if vals and all(isinstance(fr.expand(v, d), ast.Call) and
-                          (f.name(fr.expand(v, d)) or "") == "self._make_sorted_work_items"
-                          for (v, d) in vals):
-            a = fr.expand(vals[0][0], vals[0][1])
-          else:
-            raise AnalysisError("%s: what is handed to _update_loop (%s) could not be traced"
-                                % (q, a.id))
-        ok = isinstance(a, ast.Call) and (f.name(a) or "") == "self._make_sorted_work_items"
-        run.ob(R4, q, "self._update_loop(<sorted work items>%s)" %
-               "".join(", %s=%s" % (k.arg, text(k.value)) for k in c.keywords),
-               "update loop starts from sorted work items", ok, fi=f.fi, node=c)
-    if q.endswith("_update_loop"):
-      wp = f.fi.params()[1]
-      rebinds = [n for n in fr.cfg.nodes if n.kind == "stmt" and isinstance(n.stmt, ast.Assign)
-                 and any(text(t) == wp for t in n.stmt.targets)]
-      need(rebinds, "the statement that refills %s inside the update loop" % wp, f)
-      ok = all(isinstance(fr.expand(n.stmt.value, n.id), ast.Call) and
-               (f.name(fr.expand(n.stmt.value, n.id)) or "") == "self._make_sorted_work_items"
-               for n in rebinds)
-      run.ob(R4, q, "work_items = self._make_sorted_work_items(self.recompute_map.keys())",
+  for (f, fr, n, c, e, kind), bc in zip(sites, resolved):
+    if bc is None:
+      a = fr.expand(e, n.id)
+      if isinstance(a, ast.Name) or (isinstance(a, ast.Call) and not repo_callees(w, f, a) and
+                                     dotted(a.func) not in ("list", "sorted", "reversed")):
+        raise AnalysisError("%s: what is handed to the update loop (%s) could not be traced"
+                            % (f.qualname, short(a, 50)))
+    ok = bc is not None and [t.qualname for t in bc[1]] == [bq]
+    if kind == "call":
+      run.ob(R4, f.qualname, "self._update_loop(<sorted work items>%s)" %
+             "".join(", %s=%s" % (k.arg, text(k.value)) for k in c.keywords),
+             "update loop starts from sorted work items", ok, fi=f.fi, node=c)
+    else:
+      run.ob(R4, f.qualname, "work_items = self._make_sorted_work_items(self.recompute_map.keys())",
              "remaining work is re-sorted on every round", ok, fi=f.fi)
 
 
